@@ -16,6 +16,8 @@ import (
 type mval struct {
 	Val string `json:"val"`
 	Exp int64  `json:"exp,omitempty"`
+	UAt int64  `json:"uat,omitempty"` // UpdatedAt the record carries (unix ns, 0 = none)
+	CAt int64  `json:"cat,omitempty"` // CreatedAt
 }
 
 type kv struct {
@@ -29,6 +31,8 @@ type exec struct {
 	Op               op
 	Val              string   // value the key holds if this request changes it
 	Exp              int64    // ExpiredAt sent with the request (unix ns), 0 none
+	ChkUAt, ChkCAt   bool     // the UpdatedAt / CreatedAt the event's treasure must carry is known …
+	WantUAt, WantCAt int64    // … and is this (0 = none)
 	Silent           bool     // by construction a save that changes nothing (or a read)
 	Status           string   // status the server reported for the key
 	Changed          bool     // the response says the key was created/updated
@@ -334,6 +338,13 @@ func (rc *roundCheck) run() {
 				if c.want != "" && c.want != st.String() && !contended(key) && (rc.required || silent == nil) {
 					rc.fail(fmt.Sprintf("status:%s:event=%s:response=%s", c.ex.Op.K, st, c.ex.Status),
 						fmt.Sprintf("%s on key %s answered %s but the event says %s", c.ex.label(), key, c.ex.Status, st), viewOf(r))
+				}
+				// client metadata travels in the payload; it has nothing to do with EventTime
+				if got := tsNanos(m.GetTreasure().GetUpdatedAt()); c.ex.ChkUAt && got != c.ex.WantUAt {
+					rc.fail("payload:"+st.String()+":updatedAt-differs:"+c.ex.Op.K, fmt.Sprintf("%s: the event's treasure carries UpdatedAt=%d, the record's UpdatedAt (as supplied by clients / stamped by the server on request) is %d", c.ex.label(), got, c.ex.WantUAt), viewOf(r))
+				}
+				if got := tsNanos(m.GetTreasure().GetCreatedAt()); c.ex.ChkCAt && got != c.ex.WantCAt {
+					rc.fail("payload:"+st.String()+":createdAt-differs:"+c.ex.Op.K, fmt.Sprintf("%s: the event's treasure carries CreatedAt=%d, the record's CreatedAt is %d", c.ex.label(), got, c.ex.WantCAt), viewOf(r))
 				}
 				if c.ex.Exp != 0 && tsNanos(m.GetTreasure().GetExpiredAt()) != c.ex.Exp {
 					rc.fail("payload:"+st.String()+":expiredAt-differs:"+c.ex.Op.K, fmt.Sprintf("%s set ExpiredAt=%d, the event's treasure carries %d", c.ex.label(), c.ex.Exp, tsNanos(m.GetTreasure().GetExpiredAt())), viewOf(r))
